@@ -150,6 +150,7 @@ fn decode(t: &mut Tape) -> Case {
         raw_ashr: false,
         index_gaps_permille: 250,
         nop_placeholders: true,
+        function_index: false,
     };
     let nf = if klass >= 3 { t.range(1, 3) } else { 1 };
     let mut fns: Vec<FnSpec> = Vec::new();
